@@ -391,13 +391,22 @@ def blob_attrs(ctx, prog, rule):
 # ----------------------------------------------------------------------------------------
 # escaping gate (C04-R5)
 
+def _numeric_text(t):
+    """x.to_string() of a numeric x (or a choice between such)"""
+    while t[0] in ("ok", "partial", "ref") or (t[0] == "cast"):
+        t = t[2] if t[0] == "cast" else t[1]
+    if t[0] == "phi":
+        return all(_numeric_text(a) for a in t[1])
+    return t[0] == "call" and t[1].endswith("ToString>::to_string") and len(t) > 4 and t[4] and t[4][0].lstrip("&").strip() in NUMERIC
+
+
 def escaping_gate(ctx, prog, rule):
     m, text, problems, root = xmlgen.writer_map(prog, "root::serialize_root")
     n_str = 0
     for name, sites in m.items():
         for s in sites:
             ty = vtype(s)
-            if ty in NUMERIC:
+            if ty in NUMERIC or _numeric_text(s["tree"]):
                 continue
             n_str += 1
             tree = strip(s["tree"])
@@ -710,6 +719,31 @@ def prototype_order(ctx, prog, rule):
         if v[0] == "agg" and v[1][0] == "adt" and v[1][1] == "record::Record":
             loops = natural_loops(f)
             ok = any(bi in body for body in loops.values()) and "children" in tree_str(v)
+    if not ok:
+        # the same as an iterator pipeline: prototype_tag.children().filter(..).map(|n| .. Record{..}).collect()
+        ORDER_KEEPING = ("map", "filter", "filter_map", "into_iter", "iter", "by_ref", "peekable", "fuse", "inspect", "map_while", "take_while", "flatten", "flat_map")
+        for bi in f.cfg():
+            for st in f.blocks[bi]["stmts"]:
+                if not is_variant_agg(st["rv"], "pointcloud::PointCloud", "PointCloud"):
+                    continue
+                vals = dict(zip(st["rv"]["kind"]["fields"], st["rv"]["ops"]))
+                x = strip(R.operand(vals["prototype"]))
+                if not (x[0] == "call" and x[1].rsplit("::", 1)[-1] == "collect" and x[2]):
+                    continue
+                chain, builds_record = [], False
+                y = strip(x[2][0])
+                while y[0] == "call" and y[2]:
+                    last = y[1].rsplit("::", 1)[-1]
+                    chain.append(last)
+                    if last in ("map", "filter_map") and len(y[2]) == 2:
+                        cl = strip(y[2][1])
+                        if cl[0] == "agg" and cl[1][0] == "closure" and cl[1][1] in prog.fns:
+                            cf = prog.fns[cl[1][1]]
+                            builds_record = builds_record or any(is_variant_agg(s2["rv"], "record::Record", "Record") for b2 in cf.cfg() for s2 in cf.blocks[b2]["stmts"])
+                    if last == "children":
+                        break
+                    y = strip(y[2][0])
+                ok = bool(chain) and chain[-1] == "children" and all(c in ORDER_KEEPING for c in chain[:-1]) and builds_record
     ctx.ob(rule, "prototype-order/reader", ok, "records are pushed in the document order of the children of <prototype>")
     g = prog.fn("pointcloud::PointCloud::xml_string")
     ctx.fn_seen(g)
@@ -834,6 +868,20 @@ def axis_sites(prog):
     return out
 
 
+def bodies_of(prog, path):
+    """the function and every closure written inside it: (body, tr) where tr(tree) expresses a value of that body in
+    terms of the function (captures become the function's values, the closure's item parameter becomes
+    next(<receiver of the adapter it is handed to>))"""
+    import panic_rules
+    out = []
+    for p, g in sorted(prog.fns.items()):
+        if p == path:
+            out.append((g, lambda t: t))
+        elif p.startswith(path + "::{closure"):
+            out.append((g, lambda t, g=g: panic_rules.translate_closure_tree(prog, g, t)[1]))
+    return out
+
+
 def namespace_rules(ctx, prog, rule_ns, rule_axis, rule_proto):
     sites = lookup_sites(prog)
     n = 0
@@ -862,12 +910,13 @@ def namespace_rules(ctx, prog, rule_ns, rule_axis, rule_proto):
     # prototype naming: lookup_prefix is asked on the record element itself with its own namespace
     f = prog.fn("pointcloud::PointCloud::from_node")
     ctx.fn_seen(f)
-    R = Resolver(f)
     ok = False
     desc = ""
-    for bi, t in f.calls(lambda c, t: c.endswith("::lookup_prefix")):
-        recv = strip(R.operand(t["args"][0]))
-        ns = R.operand(t["args"][1])
+    for g, tr in bodies_of(prog, f.path):
+      Rg = Resolver(g)
+      for bi, t in g.calls(lambda c, t: c.endswith("::lookup_prefix")):
+        recv = strip(tr(Rg.operand(t["args"][0])))
+        ns = tr(Rg.operand(t["args"][1]))
         desc = "%s.lookup_prefix(%s)" % (tree_str(recv)[:80], tree_str(strip(ns))[:120])
         tn = [x for x in leaves(ns) if x[0] == "call" and x[1].endswith("::tag_name")]
         same = bool(tn) and tree_str(strip_deep(tn[0][2][0])) == tree_str(strip_deep(recv))
@@ -876,8 +925,10 @@ def namespace_rules(ctx, prog, rule_ns, rule_axis, rule_proto):
     ctx.ob(rule_proto, "prototype-prefix/PointCloud::from_node", ok, "record namespace prefix: %s (must be looked up on the record element itself, for its own namespace, so that declarations on the element are seen)" % desc)
     # record name constructed from (prefix, local name) of the same element
     okn = False
-    for bi, t in f.calls(lambda c, t: c == "record::RecordName::from_namespace_and_tag_name"):
-        a0, a1 = strip(R.operand(t["args"][0])), strip(R.operand(t["args"][1]))
+    for g, tr in bodies_of(prog, f.path):
+      Rg = Resolver(g)
+      for bi, t in g.calls(lambda c, t: c == "record::RecordName::from_namespace_and_tag_name"):
+        a0, a1 = strip(tr(Rg.operand(t["args"][0]))), strip(tr(Rg.operand(t["args"][1])))
         okn = a0[0] == "call" and a0[1].endswith("lookup_prefix") and "tag_name" in tree_str(a1) and a1[0] == "call" and a1[1].endswith("::name")
     ctx.ob(rule_proto, "prototype-name-source/PointCloud::from_node", okn, "RecordName is built from lookup_prefix(..) and tag_name().name() of the record element")
     # vector children: only <vectorChild type="Structure"> children become point clouds / images
